@@ -78,7 +78,7 @@ def _enc(prefix, lanes):
     return prefix + ":" + ",".join("%x" % v for v in lanes)
 
 
-def run(driver, seed, cases, backend="Neon", regbits=128):
+def run_one(driver, seed, cases, backend="Neon", regbits=128, tf=None):
     rnd = random.Random(seed)
     reqs = []    # (request, checker) ; checker(answer, answers_of_aux) -> None | description
     plan = []
@@ -115,6 +115,8 @@ def run(driver, seed, cases, backend="Neon", regbits=128):
                 plan.append((ty, method, args, None))
     # build the request stream: the NEON request, then (floats, arithmetic) the per-lane scalar requests
     lines = ["env 0 0 0 1"]
+    if tf:
+        lines.append("tf " + " ".join(str(int(b)) for b in tf))
     index = []
     for ty, method, args, extra in plan:
         isint = ty in INT_TYPES
@@ -123,11 +125,17 @@ def run(driver, seed, cases, backend="Neon", regbits=128):
         main = len(lines)
         lines.append("reg %s %s %s %s" % (backend, ty, method, " ".join(_enc(p, ls) for p, ls in args)))
         aux = []
-        if not isint and method == "fmadd":
+        if not isint and method == "fmadd" and backend == "Avx2":
+            # the `nofma` backend: `acc + x*y` with two roundings in every lane = the scalar (Fallback) fmadd
+            for k in range(L):
+                aux.append(len(lines))
+                lines.append("reg Fallback %s fmadd %s" % (ty, " ".join(_enc(p, [ls[k]]) for p, ls in args)))
+        elif not isint and method == "fmadd":
             # one request to the 256-bit fused x86 model with the lanes padded by zeros
             XL = 256 // w
-            aux.append(len(lines))
-            lines.append("reg Avx2Fma %s fmadd %s" % (ty, " ".join(_enc(p, ls + [0] * (XL - L)) for p, ls in args)))
+            for c0 in range(0, L, XL):
+                aux.append(len(lines))
+                lines.append("reg Avx2Fma %s fmadd %s" % (ty, " ".join(_enc(p, (ls[c0:c0 + XL] + [0] * XL)[:XL]) for p, ls in args)))
         if not isint and method in ("add", "sub", "mul", "div"):
             for k in range(L):
                 aux.append(len(lines))
@@ -163,9 +171,17 @@ def run(driver, seed, cases, backend="Neon", regbits=128):
         elif method == "sum_to_value" and not isint:
             byvalue = True
             want = [float(sum(extra))]
+        elif method == "fmadd" and not isint and backend == "Avx2":
+            want = []
+            for k in aux:
+                r = lanes_of(outs[k] if k < len(outs) else "")
+                want.append(r[0] if r else None)
         elif method == "fmadd" and not isint:
-            r = lanes_of(outs[aux[0]] if aux and aux[0] < len(outs) else "")
-            want = r[:L] if r else [None] * L
+            want = []
+            for k in aux:
+                r = lanes_of(outs[k] if k < len(outs) else "")
+                want += r if r else [None] * (256 // w)
+            want = want[:L]
         elif method.endswith("_to_value"):
             ls = args[0][1]
             if isint:
@@ -205,7 +221,32 @@ def run(driver, seed, cases, backend="Neon", regbits=128):
                     bad = "lanes %s, expected %s" % (",".join("%x" % v for v in got), ",".join("?" if v is None else "%x" % v for v in want))
                     break
         if bad and len(violations) < 10:
-            violations.append({"kind": "model_vs_oracle", "routine": "%s %s %s" % (backend, ty, method),
-                               "request": lines[main][:600], "detail": bad,
-                               "note": "the %s backend as modelled from the current source, executed by the Lean driver; no hardware run is possible in this sandbox" % backend})
+            violations.append({"kind": "model_vs_oracle", "routine": "%s %s %s" % (backend, ty, method), "target_features": tf,
+                               "request": (("tf " + " ".join(str(int(b)) for b in tf) + " ; ") if tf else "") + lines[main][:600], "detail": bad,
+                               "note": "the %s backend as modelled from the current source, executed by the Lean driver%s" % (
+                                   backend, "; no hardware run is possible in this sandbox" if backend == "Neon" else
+                                   " for a build with static target features (avx2,fma,avx512f,avx512bw,neon)=%s, which the harness here does not make" % (tf,))})
     return {"cases": n, "violations": violations, "histogram": hist, "driver_rc": p.returncode, "driver_stderr": p.stderr[-300:]}
+
+
+REGBITS = {"Neon": 128, "Avx2": 256, "Avx2Fma": 256, "Avx512": 512}
+
+
+def run(driver, seed, cases, backend="Neon", configs=None):
+    """`configs`: list of {"backend": name, "tf": [avx2, fma, avx512f, avx512bw, neon] or None}; default: the NEON backend.
+    x86 backends under *static* target features (builds this sandbox's harness does not make) are executed in the model only."""
+    configs = configs or [{"backend": backend}]
+    total = {"cases": 0, "violations": [], "histogram": {}, "driver_rc": 0, "driver_stderr": ""}
+    for c in configs:
+        b = c.get("backend", "Neon")
+        if b == "Avx2Fma":
+            continue  # it is the oracle for fused multiply-add
+        r = run_one(driver, seed, cases, b, REGBITS.get(b, 128), c.get("tf"))
+        total["cases"] += r["cases"]
+        total["violations"] += r["violations"]
+        tag = b + ("" if not c.get("tf") else "+tf" + "".join(str(int(x)) for x in c["tf"]))
+        for k, v in r["histogram"].items():
+            total["histogram"][tag + "/" + k] = v
+        total["driver_rc"] = total["driver_rc"] or r["driver_rc"]
+        total["driver_stderr"] += r["driver_stderr"]
+    return total
